@@ -549,7 +549,7 @@ def run_case(desc):
             shapes = all_shapes(len(M.external(ast)), desc["smax"])
             check_wellformed(v, ast, rng, shapes, 2, keys)
             v.count("enum_specs")
-        if desc["lo"] % (ENUM_CHUNK * 60) == 0:
+        if desc["lo"] in (ENUM_CHUNK * 40, ENUM_CHUNK * 160):
             ast = specs[desc["hi"] - 1]
             S = all_shapes(len(M.external(ast)), desc["smax"])[-1]
             sample = {"kind": "enum", "spec": M.render(ast), "shapes_checked": len(all_shapes(len(M.external(ast)), desc["smax"])),
@@ -562,7 +562,7 @@ def run_case(desc):
             shapes = sample_shapes(rng, len(M.external(ast)), desc["nshapes"])
             check_wellformed(v, ast, rng, shapes, 4, keys)
             v.count("rand_specs")
-        if desc["batch"] % 40 == 0:
+        if desc["batch"] == 0:
             sample = {"kind": "rand", "spec": M.render(ast), "whitespace_variant": M.render_ws(ast, rng),
                       "shapes": [list(s) for s in shapes]}
     elif kind == "text":
@@ -582,13 +582,18 @@ def run_case(desc):
             judge_text(v, s, origin=f"text-op:{op}")
             if j < 3:
                 ex.append({"op": op, "text": s, "class": cls, "info": info if cls != "well" else ""})
-        if desc["batch"] % 30 == 0:
+        if desc["batch"] in (0, 1):
             sample = {"kind": "text", "examples": ex}
     elif kind == "sets":
         rng = random.Random(f"c08-sets-{desc['seed']}-{desc['batch']}")
         for j in range(desc["n"]):
-            check_set(v, rng)
+            verdict = check_set(v, rng)
             v.count("spec_sets")
+        if desc["batch"] == 0:
+            rng2 = random.Random("c08-sets-sample")
+            asts, tags = M.random_spec_set(rng2)
+            sample = {"kind": "sets", "specs": [M.render(a) for a in asts], "reuse_variants": tags,
+                      "model_inconsistency": M.model_consistency(asts), "model_axes": repr(M.model_axes(asts))}
     else:
         raise ValueError(kind)
     return v.result(keys=keys, sample=sample)
